@@ -156,6 +156,165 @@ theorem evs_sound (p : Prog) (s : St) (o : Out) (t : List Ev) (h : RunE p s o t)
     have hba : Out.bad ∉ outs a s := fun hx => hb (by simp only [outs]; exact List.mem_map.mpr ⟨_, hx, rfl⟩)
     intro k hk; simpa [evs] using ih hba k hk
 
+/-! ### `evs` is exact: what it computes happens -/
+
+theorem seq_clean (a b : Prog) (s : St) (hb : Out.bad ∉ outs (.seq a b) s) :
+    Out.bad ∉ outs a s ∧ ∀ s', Out.normal s' ∈ outs a s → Out.bad ∉ outs b s' := by
+  refine ⟨?_, ?_⟩
+  · intro hx; apply hb; simp only [outs, List.mem_flatMap]; exact ⟨_, hx, by simp⟩
+  · intro s' hn hx; apply hb; simp only [outs, List.mem_flatMap]; exact ⟨_, hn, hx⟩
+
+/-- every outcome `outs` computes for a skeleton it does not refuse is the outcome of an execution -/
+theorem outs_complete (p : Prog) : ∀ (s : St), Out.bad ∉ outs p s → ∀ o ∈ outs p s, Run p s o := by
+  induction p with
+  | skip => intro s _ o ho; simp [outs] at ho; subst ho; exact .skip s
+  | lock m =>
+    intro s hb o ho
+    by_cases hm : m ∈ s.held
+    · simp [outs, hm] at hb
+    · simp [outs, hm] at ho; subst ho; exact .lockOk m s hm
+  | unlock m =>
+    intro s hb o ho
+    by_cases hm : m ∈ s.held
+    · simp [outs, hm] at ho; subst ho; exact .unlockOk m s hm
+    · simp [outs, hm] at hb
+  | dunlock m => intro s _ o ho; simp [outs] at ho; subst ho; exact .dunlock m s
+  | ret => intro s _ o ho; simp [outs] at ho; subst ho; exact .ret s
+  | brk => intro s _ o ho; simp [outs] at ho; subst ho; exact .brk s
+  | cont => intro s _ o ho; simp [outs] at ho; subst ho; exact .cont s
+  | act k => intro s _ o ho; simp [outs] at ho; subst ho; exact .act k s
+  | unknown => intro s hb; simp [outs] at hb
+  | seq a b iha ihb =>
+    intro s hb o ho
+    obtain ⟨hba, hbb⟩ := seq_clean a b s hb
+    simp only [outs, List.mem_flatMap] at ho
+    obtain ⟨oa, hoa, ho⟩ := ho
+    cases oa with
+    | normal s' => exact .seqGo a b s s' o (iha s hba _ hoa) (ihb s' (hbb s' hoa) o ho)
+    | returned s' => simp at ho; subst ho; exact .seqStop a b s _ (iha s hba _ hoa) (by simp)
+    | broke s' => simp at ho; subst ho; exact .seqStop a b s _ (iha s hba _ hoa) (by simp)
+    | continued s' => simp at ho; subst ho; exact .seqStop a b s _ (iha s hba _ hoa) (by simp)
+    | bad => exact absurd hoa hba
+  | ite a b iha ihb =>
+    intro s hb o ho
+    simp only [outs, List.mem_append] at ho hb
+    rcases ho with ho | ho
+    · exact .iteL a b s o (iha s (fun hx => hb (Or.inl hx)) o ho)
+    · exact .iteR a b s o (ihb s (fun hx => hb (Or.inr hx)) o ho)
+  | loop a iha =>
+    intro s hb o ho
+    obtain ⟨hba, hn, hc⟩ := loop_clean a s hb
+    simp only [outs] at ho
+    split at ho
+    · rcases List.mem_cons.mp ho with rfl | ho
+      · exact .loopEnd a s
+      · obtain ⟨oa, hoa, rfl⟩ := List.mem_map.mp ho
+        have hra := iha s hba oa hoa
+        cases oa with
+        | normal s' => exact .loopNext a s s' _ hra (.loopEnd a s')
+        | continued s' => exact .loopCont a s s' _ hra (.loopEnd a s')
+        | broke s' => exact .loopBrk a s s' hra
+        | returned s' => exact .loopRet a s s' hra
+        | bad => exact absurd hoa hba
+    · simp at ho; subst ho
+      exact absurd (by simp [outs, *]) hb
+  | «catch» a iha =>
+    intro s hb o ho
+    have hba : Out.bad ∉ outs a s := fun hx => hb (by simp only [outs]; exact List.mem_map.mpr ⟨_, hx, rfl⟩)
+    simp only [outs] at ho
+    obtain ⟨oa, hoa, rfl⟩ := List.mem_map.mp ho
+    have hra := iha s hba oa hoa
+    cases oa with
+    | broke s' => exact .catchBrk a s s' hra
+    | normal s' => exact .catchOther a s _ hra (by simp)
+    | returned s' => exact .catchOther a s _ hra (by simp)
+    | continued s' => exact .catchOther a s _ hra (by simp)
+    | bad => exact absurd hoa hba
+
+/-- some execution with its requests, from every state -/
+theorem runE_total (p : Prog) (s : St) : ∃ o t, RunE p s o t := by
+  obtain ⟨o, h⟩ := run_total p s
+  obtain ⟨t, ht⟩ := run_runE p s o h
+  exact ⟨o, t, ht⟩
+
+/-- **Every request `evs` computes is made by an execution**, holding exactly what `evs` says: the relation the checker
+    works with has nothing in it that the skeleton cannot do. -/
+theorem evs_complete (p : Prog) : ∀ (s : St), Out.bad ∉ outs p s → ∀ e ∈ evs p s, ∃ o t, RunE p s o t ∧ e ∈ t := by
+  induction p with
+  | skip => intro s _ e he; simp [evs] at he
+  | unlock m => intro s _ e he; simp [evs] at he
+  | dunlock m => intro s _ e he; simp [evs] at he
+  | ret => intro s _ e he; simp [evs] at he
+  | brk => intro s _ e he; simp [evs] at he
+  | cont => intro s _ e he; simp [evs] at he
+  | unknown => intro s _ e he; simp [evs] at he
+  | lock m =>
+    intro s hb e he
+    by_cases hm : m ∈ s.held
+    · simp [outs, hm] at hb
+    · simp [evs] at he; subst he
+      exact ⟨_, _, .lockOk m s hm, by simp⟩
+  | act k =>
+    intro s _ e he
+    simp [evs] at he; subst he
+    exact ⟨_, _, .act k s, by simp⟩
+  | seq a b iha ihb =>
+    intro s hb e he
+    obtain ⟨hba, hbb⟩ := seq_clean a b s hb
+    simp only [evs, List.mem_append, List.mem_flatMap] at he
+    rcases he with he | ⟨oa, hoa, he⟩
+    · obtain ⟨o, t, hr, het⟩ := iha s hba e he
+      cases o with
+      | normal s' =>
+        obtain ⟨o2, t2, hr2⟩ := runE_total b s'
+        exact ⟨o2, t ++ t2, .seqGo a b s s' o2 t t2 hr hr2, List.mem_append.mpr (Or.inl het)⟩
+      | returned s' => exact ⟨_, t, .seqStop a b s _ t hr (by simp), het⟩
+      | broke s' => exact ⟨_, t, .seqStop a b s _ t hr (by simp), het⟩
+      | continued s' => exact ⟨_, t, .seqStop a b s _ t hr (by simp), het⟩
+      | bad => exact ⟨_, t, .seqStop a b s _ t hr (by simp), het⟩
+    · cases oa with
+      | normal s' =>
+        obtain ⟨t1, hr1⟩ := run_runE a s _ (outs_complete a s hba _ hoa)
+        obtain ⟨o, t2, hr2, het⟩ := ihb s' (hbb s' hoa) e he
+        exact ⟨o, t1 ++ t2, .seqGo a b s s' o t1 t2 hr1 hr2, List.mem_append.mpr (Or.inr het)⟩
+      | returned s' => simp at he
+      | broke s' => simp at he
+      | continued s' => simp at he
+      | bad => simp at he
+  | ite a b iha ihb =>
+    intro s hb e he
+    simp only [outs, List.mem_append] at hb
+    simp only [evs, List.mem_append] at he
+    rcases he with he | he
+    · obtain ⟨o, t, hr, het⟩ := iha s (fun hx => hb (Or.inl hx)) e he
+      exact ⟨o, t, .iteL a b s o t hr, het⟩
+    · obtain ⟨o, t, hr, het⟩ := ihb s (fun hx => hb (Or.inr hx)) e he
+      exact ⟨o, t, .iteR a b s o t hr, het⟩
+  | loop a iha =>
+    intro s hb e he
+    obtain ⟨hba, _, _⟩ := loop_clean a s hb
+    simp only [evs] at he
+    obtain ⟨o, t, hr, het⟩ := iha s hba e he
+    cases o with
+    | normal s' =>
+      exact ⟨_, t ++ [], .loopNext a s s' _ t [] hr (.loopEnd a s'), List.mem_append.mpr (Or.inl het)⟩
+    | continued s' =>
+      exact ⟨_, t ++ [], .loopCont a s s' _ t [] hr (.loopEnd a s'), List.mem_append.mpr (Or.inl het)⟩
+    | broke s' => exact ⟨_, t, .loopBrk a s s' t hr, het⟩
+    | returned s' => exact ⟨_, t, .loopRet a s s' t hr, het⟩
+    | bad => exact ⟨_, t, .loopBad a s t hr, het⟩
+  | «catch» a iha =>
+    intro s hb e he
+    have hba : Out.bad ∉ outs a s := fun hx => hb (by simp only [outs]; exact List.mem_map.mpr ⟨_, hx, rfl⟩)
+    simp only [evs] at he
+    obtain ⟨o, t, hr, het⟩ := iha s hba e he
+    cases o with
+    | broke s' => exact ⟨_, t, .catchBrk a s s' t hr, het⟩
+    | normal s' => exact ⟨_, t, .catchOther a s _ t hr (by simp), het⟩
+    | returned s' => exact ⟨_, t, .catchOther a s _ t hr (by simp), het⟩
+    | continued s' => exact ⟨_, t, .catchOther a s _ t hr (by simp), het⟩
+    | bad => exact ⟨_, t, .catchOther a s _ t hr (by simp), het⟩
+
 /-! ### through calls -/
 
 /-- `Asks T f G m`: the `f`-th function of the table, entered holding nothing of its own, comes to ask for the mutex `m`
@@ -222,6 +381,54 @@ theorem asks_edges (T : Table) (A : List (List Nat)) (hs : allSafe T = true) (hc
       simp only [Nat.le_add_right, if_true, Nat.add_sub_cancel_left, List.mem_flatMap, List.mem_map]
       exact ⟨g, hg, m, ih.1, rfl⟩
     · exact ih.2 g hg
+
+/-! ### the edges are real -/
+
+/-- what a function may take, itself or through calls, read off the computed requests -/
+inductive MayTake (T : Table) : Nat → Nat → Prop where
+  | own (f m H) : Ev.lock m H ∈ fnEvs T f → MayTake T f m
+  | through (f c H m) : Ev.call (1000 + c) H ∈ fnEvs T f → MayTake T c m → MayTake T f m
+
+theorem fnEvs_some (T : Table) (f : Nat) (e : Ev) (he : e ∈ fnEvs T f) :
+    ∃ n p, T[f]? = some (n, p) ∧ e ∈ evs p {} := by
+  unfold fnEvs at he
+  split at he
+  · rename_i np hT
+    exact ⟨np.1, np.2, hT, he⟩
+  · simp at he
+
+/-- a computed request for a mutex is made by an execution of the function, holding exactly what was computed -/
+theorem lock_request_is_real (T : Table) (hs : allSafe T = true) (f m : Nat) (H : List Nat)
+    (he : Ev.lock m H ∈ fnEvs T f) : Asks T f H m := by
+  obtain ⟨n, p, hT, hev⟩ := fnEvs_some T f _ he
+  have hsafe : safe p = true := List.all_eq_true.mp hs (n, p) (List.mem_of_getElem? hT)
+  obtain ⟨o, t, hr, het⟩ := evs_complete p {} (safe_not_bad p hsafe) _ hev
+  exact .here f n p o t m H hT hr het
+
+/-- whatever a function may take by the computed requests, some chain of calls does ask for -/
+theorem mayTake_asks (T : Table) (hs : allSafe T = true) (f m : Nat) (h : MayTake T f m) : ∃ G, Asks T f G m := by
+  induction h with
+  | own f m H he => exact ⟨H, lock_request_is_real T hs f m H he⟩
+  | through f c H m he _ ih =>
+    obtain ⟨G, hG⟩ := ih
+    obtain ⟨n, p, hT, hev⟩ := fnEvs_some T f _ he
+    have hsafe : safe p = true := List.all_eq_true.mp hs (n, p) (List.mem_of_getElem? hT)
+    obtain ⟨o, t, hr, het⟩ := evs_complete p {} (safe_not_bad p hsafe) _ hev
+    exact ⟨H ++ G, .deeper f n p o t c H G m hT hr het hG⟩
+
+/-- **No edge without a chain**: a call made while `h` is held, to a function that may take `m`: some goroutine that
+    enters `f` comes to ask for `m` while it holds `h`. With `asks_edges` the relation is exact for the skeletons — what
+    the checker refuses is an inversion the skeletons can perform, not an artefact of the computation (the translator's
+    hint `acq` may be larger than what `acquires` computes from the requests; the two sets of edges are compared by
+    evaluation on every run — evidence `lock_order.hint-exact` — not by a theorem). -/
+theorem call_edge_is_real (T : Table) (hs : allSafe T = true) (f c m h : Nat) (H : List Nat)
+    (he : Ev.call (1000 + c) H ∈ fnEvs T f) (hh : h ∈ H) (hm : MayTake T c m) :
+    ∃ G, Asks T f G m ∧ h ∈ G := by
+  obtain ⟨G, hG⟩ := mayTake_asks T hs c m hm
+  obtain ⟨n, p, hT, hev⟩ := fnEvs_some T f _ he
+  have hsafe : safe p = true := List.all_eq_true.mp hs (n, p) (List.mem_of_getElem? hT)
+  obtain ⟨o, t, hr, het⟩ := evs_complete p {} (safe_not_bad p hsafe) _ hev
+  exact ⟨H ++ G, .deeper f n p o t c H G m hT hr het hG, List.mem_append.mpr (Or.inl hh)⟩
 
 /-! ### a ranked order has no deadlock -/
 
